@@ -17,7 +17,7 @@ RULE = ('well-formed chart S with internal transitions, history and orthogonal r
         'renamed chart are driven by the same seeded script in lock-step: macro steps must be equal modulo the renaming, Transition.internal '
         'unchanged for every transition. (b) S is plugged as a guest into a host (leaf under a compound root, or inside one region of an '
         'orthogonal root) with copy_from_statechart and an injective renaming function; the plugged copy must produce the guest macro steps '
-        'modulo renaming. non-trivial = a run in which a renamed (or copied) state that owns an internal transition or is referred to by '
+        'modulo renaming. In a third of the runs states and transitions carry contracts that are checked in every run: the same conditions must be evaluated at the same points. non-trivial = a run in which a renamed (or copied) state that owns an internal transition or is referred to by '
         'initial/memory took part in a macro step; distinct = distinct (chart, renamed set, script)')
 COMPONENTS = {'real': common.REAL + ['Statechart.rename_state', 'Statechart.copy_from_statechart'], 'stub': common.STUB}
 ASSUMPTIONS = common.ASSUME + ['guest charts have no final state (a final child of the guest root means something else once nested)']
@@ -53,6 +53,9 @@ def run(ch, tier):
     cfg = swarm(cs, Cfg(sends=True, bump=True, internal=True, delays=False, final=(mode == 'rename')), tier)
     if mode == 'copy':
         cfg.final = False
+    # in a third of the runs states and transitions carry contracts, checked in all runs: a renamed / copied statechart
+    # evaluates the same conditions at the same points
+    contracts = cfg.contracts = cs.flag(1, 3)
     if cs.flag(1, 3):       # two history states under one parent: which one comes first among the children depends on the names
         cfg.history = cfg.force_history = True
         cfg.max_states = max(cfg.max_states, 8)
@@ -81,7 +84,7 @@ def run(ch, tier):
             chart.add_transition(Transition(src, t3, event='ez', guard='0 <= v', action='P.act(9002, event)'))
     base = build_api(sp)
     add_twins(base)
-    a = Sim(sp, statechart=base)
+    a = Sim(sp, statechart=base, ignore_contract=not contracts)
     outs = []
     touched = set()
     for r in standard_ops(a, ch, tier, hi=25 if tier == 'quick' else 60):
@@ -139,7 +142,7 @@ def run(ch, tier):
             sc.validate()
         except Exception as e:
             return res.fail('renamed-chart-invalid', 'validate() fails after renaming: %s' % e, **ctx)
-        b = Sim(sp, statechart=sc)
+        b = Sim(sp, statechart=sc, ignore_contract=not contracts)
         interesting = set(ren) & touched
     else:
         guest = build_api(sp)
@@ -194,7 +197,7 @@ def run(ch, tier):
         copied = len([t for t in host.transitions if t.action])
         if copied != len(guest.transitions):
             return res.fail('transitions-lost-by-copy', 'the guest declares %d transitions, %d arrived in the host' % (len(guest.transitions), copied), **ctx)
-        b = Sim(sp, statechart=host)
+        b = Sim(sp, statechart=host, ignore_contract=not contracts)
         interesting = touched
     for i, r in enumerate(replay_script(b, script)):
         conf = sorted(x for x in (back(s) for s in r.post) if x is not None)
@@ -206,6 +209,7 @@ def run(ch, tier):
                 i, 'renamed' if mode == 'rename' else 'host', f, x, y), **ctx)
     res.stats['runs_' + mode] += 1
     res.stats['runs_with_twin_transitions'] += int(bool(twins))
+    res.stats['runs_with_contracts_checked'] += int(contracts)
     special = [t for t in sp.trans if t.tgt is None and t.src in interesting]
     if special or any(s.initial in interesting or s.memory in interesting for s in sp.states.values()):
         res.nontrivial.add(fp((sp.fingerprint(), mode, sorted(interesting), [repr(o) for o in script])))
